@@ -72,6 +72,25 @@ def model_shapes(n):
 def run_one(args):
     name, src, jit = args
     env = {"STEEL_JIT": "true" if jit else "false"}
+    if name.startswith("module:"):
+        # the way `steel file.scm` runs a script: the text is a module, required from the top level; module-level
+        # procedures are compiled (and JIT-compiled) differently from top-level ones
+        d = os.path.join(C.BUILD, "C09", "mods")
+        os.makedirs(d, exist_ok=True)
+        path = os.path.join(d, "%s-%s-%d.scm" % (name[7:], "jit" if jit else "nojit", os.getpid()))
+        body = src.rsplit("\n", 1)
+        with open(path, "w") as f:
+            f.write(body[0] + "\n(displayln " + body[1] + ")\n")
+        rc, out, err = C.run_bin([C.bin_path("vh"), "eval"], '(require "%s")\n' % path, timeout=900, env=env)
+        try:
+            os.remove(path)
+        except OSError:
+            pass
+        lines = [l for l in out.strip().splitlines() if l.strip()]
+        last = lines[-1] if lines else ""
+        if last.startswith("=> ok") and len(lines) >= 2:
+            last = "=> ok " + lines[-2]          # the list printed by the module
+        return name, jit, rc, last, err[-300:]
     rc, out, err = C.run_bin([C.bin_path("vh"), "eval"], src + "\n", timeout=900, env=env)
     return name, jit, rc, out.strip().splitlines()[-1] if out.strip() else "", err[-300:]
 
@@ -87,6 +106,7 @@ def run(ctx):
         return ctx.finish()
     n = 1000000 if ctx.quick() else 10000000
     jobs = [(name, src, jit) for name, src in shapes(n) for jit in (True, False)]
+    jobs += [("module:" + name, src, jit) for name, src in shapes(n) for jit in (True, False)]
     # non-tail recursion: deep but below the limit must work; it must never crash the host
     deep = "(define (deep n) (if (= n 0) 0 (+ 1 (deep (- n 1)))))\n(define r (deep %d))\n(list r 0 0 0)" % (200000 if ctx.quick() else 2000000)
     jobs += [("deep-nontail", deep, True), ("deep-nontail", deep, False)]
@@ -108,9 +128,9 @@ def run(ctx):
         if len(stats["samples"]) < 3:
             stats["samples"].append({"shape": name, "jit": jit, "iterations": n, "result_line": last[-80:]})
         if bad:
-            src = dict((nm, s) for nm, s in shapes(n)).get(name, deep)
-            ctx.violation("C09-%s-%s.scm" % (name, "jit" if jit else "nojit"),
-                          "; STEEL_JIT=%s ; %s\n%s\n" % (jit, bad, src))
+            src = dict((nm, s) for nm, s in shapes(n)).get(name.replace("module:", ""), deep)
+            ctx.violation("C09-%s-%s.scm" % (name.replace(":", "-"), "jit" if jit else "nojit"),
+                          "; STEEL_JIT=%s ; %s%s\n%s\n" % (jit, "MODULE (the text below is a file, evaluated by (require \"file\")) ; " if name.startswith("module:") else "", bad, src))
 
     # model: shapes + generated fragment programs (tail-aware code vs reference semantics; depth when tail-only)
     rng = random.Random(ctx.seed)
@@ -147,5 +167,7 @@ def replay(ctx, path):
     C.build_harness(ctx, ["vh"])
     src = open(path).read()
     jit = "STEEL_JIT=True" in src.splitlines()[0]
-    print(run_one(("replay", src, jit)))
+    first = src.splitlines()[0]
+    body = "\n".join(l for l in src.splitlines() if not l.startswith(";"))
+    print(run_one((("module:replay" if "MODULE" in first else "replay"), body, jit)))
     return 0
